@@ -252,8 +252,10 @@ func decodeTree(data []byte) (*decodedTree, string) {
 }
 
 // matches compares the decoded directory at index i with the actual directory n.
-// lax (fault injection on): files whose upload fails and unreadable
-// directories may be missing from the message.
+// lax (a fault was injected AND UploadOutputs returned an error): files whose
+// upload fails, symlinks whose Readlink fails and directories that cannot be
+// entered/listed may be missing from the message.  Without an error the Tree
+// must describe the directory completely, at every depth.
 func (t *decodedTree) matches(i int, n *node, where string, lax bool) string {
 	d := t.dirs[i]
 	seen := map[string]bool{}
@@ -295,7 +297,8 @@ func (t *decodedTree) matches(i int, n *node, where string, lax bool) string {
 		if seen[k] || c.kind == 's' {
 			continue // REv2 cannot express special files; they are left out
 		}
-		if lax && ((c.kind == 'f' && c.content%10 == 9) || (c.kind == 'd' && !c.readable)) {
+		if lax && ((c.kind == 'f' && c.content%10 == 9) || (c.kind == 'd' && !c.readable) ||
+			(c.kind == 'l' && c.target == readlinkFailTarget)) {
 			continue
 		}
 		return fmt.Sprintf("%q in output directory %q is missing from the Tree", k, where)
@@ -371,7 +374,13 @@ func checkUpload(ds []decl, t1 *node, o uploadObs, cas *fakeCAS, faults bool) st
 		if bad != "" {
 			return fmt.Sprintf("output directory %q: %s", d.Path, bad)
 		}
-		if v := t.matches(0, n, d.Path, faults); v != "" {
+		// errors do not lie, also below the root of an output directory: an
+		// entry may only be missing from the Tree when a fault was injected
+		// AND UploadOutputs reported an error
+		if v := t.matches(0, n, d.Path, faults && o.err != nil); v != "" {
+			if faults && o.err == nil {
+				v += " although UploadOutputs reported no error"
+			}
 			return v
 		}
 		if d.RootDirectoryDigest != nil {
